@@ -1166,6 +1166,77 @@ func runC08(r *Run) {
 		})
 	}
 
+	// ---- corpus: the start sequence of a monitor — its own list (T0), changes in the cluster, the
+	// informer's list (T1) replayed as Added with isInInitialList = true
+	for i, ver0 := range []bool{false, true} {
+		i, ver0 := i, ver0
+		r.One(17+i, func(c *Case, _ *Rng) {
+			c.Desc = "corpus: o1 (replicas 1) and o3 are listed by the monitor; before the informer starts o1 is changed to replicas 2 and o2 is created; the informer's initial list (isInInitialList) is the only notification: Added is not listed — nothing triggers, the snapshot shows replicas 2 and o2; o3 is re-delivered unchanged; then a resync and a real change"
+			b := c08Binding{exec: &[]kemtypes.WatchEventType{kemtypes.WatchEventModified, kemtypes.WatchEventDeleted}}
+			if ver0 {
+				c.Desc += " — legacy hook format, Added listed: the two changes of the window trigger as Added, o3 does not"
+				b = c08Binding{v0: &[]string{"add", "update"}}
+			}
+			c.Nontrivial = true
+			ns := fmt.Sprintf("c08-%d", c.Idx)
+			e := c08SetupHook(c, ver0, []c08Spec{{b, g4Path("spec", "replicas"), true}}, false,
+				[]map[string]any{c08Obj(ns, "o1", 1, "x", 0), c08Obj(ns, "o3", 3, "z", 0)})
+			o1 := g4DeepCopyJSON(e.states["o1"])
+			g4SetPath(o1, []string{"spec", "replicas"}, int64(2))
+			o2 := c08Obj(ns, "o2", 5, "y", 0)
+			e.jqProbe(o1)
+			e.jqProbe(o2)
+			e.deliverInitial("o1", o1)
+			c.Note("window:changed-between-list-and-start")
+			e.deliverInitial("o2", o2)
+			c.Note("window:created-between-list-and-start")
+			e.deliverInitial("o3", e.states["o3"])
+			c.Note("redeliver:start-replay")
+			e.deliver(kemtypes.WatchEventModified, "o1", o1) // resync
+			o1b := g4DeepCopyJSON(o1)
+			g4SetPath(o1b, []string{"spec", "replicas"}, int64(3))
+			e.jqProbe(o1b)
+			e.deliver(kemtypes.WatchEventModified, "o1", o1b)
+			e.deliver(kemtypes.WatchEventDeleted, "o2", o2)
+		})
+	}
+	// ---- corpus: every spelling of the binding's kind the API resolves to ConfigMaps, with an object
+	// that exists when the monitor lists: the informer start re-delivers it — silent, once in the snapshot
+	for i, kind := range c08KindSpellings {
+		i, kind := i, kind
+		r.One(19+i, func(c *Case, _ *Rng) {
+			c.Desc = "corpus: binding with kind: " + kind + ", o1 exists when the monitor lists; informer start re-delivers it (silent, shown once in the snapshot), then a change outside the projection, one inside, a resync, Deleted (snapshot empty)"
+			c.Nontrivial = true
+			ns := fmt.Sprintf("c08-%d", c.Idx)
+			b := c08Binding{kind: kind, asYAML: i%2 == 1}
+			if i%4 == 3 {
+				b.v0 = &[]string{"add", "update", "delete"}
+			}
+			var f *jqF
+			if i%3 != 2 {
+				f = g4Path("spec")
+			}
+			e := c08SetupHook(c, i%4 == 3, []c08Spec{{b, f, true}}, b.asYAML, []map[string]any{c08Obj(ns, "o1", 1, "x", 0)})
+			if i%4 == 3 {
+				c.Desc += " — legacy hook format"
+			}
+			o1 := e.states["o1"]
+			e.jqProbe(o1)
+			e.deliverInitial("o1", o1)
+			c.Note("redeliver:start-replay")
+			o2 := g4DeepCopyJSON(o1)
+			g4SetPath(o2, []string{"status", "x"}, int64(7))
+			e.jqProbe(o2)
+			e.deliver(kemtypes.WatchEventModified, "o1", o2)
+			o3 := g4DeepCopyJSON(o2)
+			g4SetPath(o3, []string{"spec", "replicas"}, int64(2))
+			e.jqProbe(o3)
+			e.deliver(kemtypes.WatchEventModified, "o1", o3)
+			e.deliver(kemtypes.WatchEventModified, "o1", o3)
+			e.deliver(kemtypes.WatchEventDeleted, "o1", o3)
+		})
+	}
+
 	// ---- generated histories
 	n := r.N(3000, 50000)
 	r.Cases(100, n, 0, func(c *Case, rng *Rng) {
